@@ -375,6 +375,34 @@ CLAIMS['C01']['text'] = CLAIMS['C01']['text'].replace(
     'Executable delivery predicate on the real association against generator ground truth. NOT covered: packetize/TSN assignment on the SEND side (C01_packetize_wf, C01_tsn_assignment), '
     'wire content, FORWARD-TSN / reset in the prefix theorem (reliable streams only), and the two-endpoint NetSys invariant (C01_netsys_prefix).')
 CLAIMS['C01']['note'] += RECV_NOTE
+# NetSys composition (agent-netsys). The receiver's replace above no longer matches the tail of the C01 text; replace the real tail.
+_C01_TAIL = ('NOT covered yet: duplicate filtering at association level (C01_dedup, C05 is the component theorem), and the composed end-to-end NetSys '
+             'invariant (C01_netsys_prefix) — system level stays exploration.')
+_C01_RECV = ('RECEIVE-SIDE SYSTEM THEOREM (Props/C01recv.lean, receive-half model of the association): C01_dedup - in every reachable state (any op list) a chunk handed to a stream has a TSN inside the '
+    'tracking window whose absolute index was never accepted before and counts as accepted ever after: a TSN reaches pushWithError at most once per association; C01_receiver_prefix / '
+    'C01_receiver_prefix_idata - for ANY arrival history of chunks drawn from the fragment universe of a message list per stream (any order, duplication, loss, bundling; any number of streams '
+    'sharing the TSN space; initial TSN anywhere incl. the wrap; fewer than 2^31 TSNs in all), interleaved with reads of any buffer size, accept/open/gather/ticks/state changes, the successful '
+    'reads on each ordered stream form a prefix of its messages - composition of C01_dedup with the reassembly refinements, under the 2^15 (SSN) / 2^31 (MID) window hypothesis (D15). ')
+_C01_NET = ('COMPOSITION (Props/C01net.lean; Model/NetSys.lean = the Sender model + the Receiver model + the HISTORY of every DATA chunk any gather put on the wire; `deliver` hands the receiver any '
+    'history chunks, any number of times, in any order and bundling, never = loss; the SACKs, burst budget, loss marks and timer inputs of the sender are ARBITRARY - safety does not depend on '
+    'truthful SACKs; the payload bytes are a ghost function of the message identity of which the sender model sees the length only; toWire = header decode as chunkPayloadData.unmarshal + the byte slice '
+    '[i*mp, i*mp+len) of the written payload): C01_netsys_prefix_idata (I-DATA, ANY pending-queue selection oracle) and C01_netsys_prefix (DATA; hypothesis SelContig, decidable on the run: the '
+    'order in which chunks get their TSNs keeps the fragments of a message together and serves each stream FIFO - exactly what C17_contiguous + C17_fragment_order prove of the real pending queue) - '
+    'for EVERY NetSys run over reliable ordered streams (every openS ordered with relType 0, no unreg), fewer than 2^31 chunks written in all (each gets at most one TSN), and the D15 window stated on '
+    'the run (messages written on the stream at most 2^31 / 2^15 ahead of the messages read on it at every step; proved to imply the receiver theorem\'s hwin), the (PPI, bytes) the receiving '
+    'application has read on each stream are a PREFIX of the (PPI, bytes) of the accepted writes on it, in write order. New sender lemmas (all runs, any SACKs/oracles, no configuration hypothesis): '
+    'C01_wire_tsn_stable - the j-th chunk moved to in flight gets TSN t0+j, every occurrence of a chunk on the wire (first transmission, T3/RACK/PTO/fast retransmission) carries the TSN and fragment '
+    'identity of a moved chunk, fragment identities are pairwise distinct: one fragment, one TSN; C01_ssn_assignment - the k-th accepted write on a stream gets SSN k mod 2^16 / MID k mod 2^32, '
+    'rejected writes (incl. the rolled-back not-established one) consume none. Tests by evaluation: two streams, three messages across the 2^32 TSN wrap, interleaved selection, loss + T3 '
+    'retransmission, duplicates, out-of-order delivery. STILL EXPLORATION at system level: liveness (C02); the byte copy in packetize (toWire ASSUMES the chunk carries that slice of the written '
+    'buffer; observed by the e2e content hashes only); unordered / partially reliable / reset traffic (FORWARD-TSN and stream reset are not operations of NetSys; that reliable streams never '
+    'cause a FORWARD-TSN is C07_reliable_never_abandoned + C07_skip_only_abandoned on the sender model, not re-proved on NetSys); the composition of the selection oracle with the PendQ model '
+    '(SelContig is a hypothesis here and a theorem there); handshake, shutdown and teardown around the transfer.')
+if _C01_TAIL in CLAIMS['C01']['text']:
+    CLAIMS['C01']['text'] = CLAIMS['C01']['text'].replace(_C01_TAIL, _C01_RECV + _C01_NET)
+else:
+    CLAIMS['C01']['text'] += ' ' + _C01_NET
+CLAIMS['C01']['technique'] += ' + composition theorem over a two-endpoint model with a packet-history network (NetSys)'
 if 'C03' in CLAIMS:
     CLAIMS['C03']['text'] += (' RECEIVE HALF (Props/C03recv.lean): C03_recv_total - no op list drives the receive-half model into its explicit panic outcome (the two empty-slice accesses of '
         'pushWithError are unreachable: C03_reasm_push_total); C03_stale_fwdtsn_noop / C03_stale_ifwdtsn_noop - a FORWARD-TSN at or behind the cumulative point changes nothing but forces an '
